@@ -78,10 +78,15 @@ fn synth_roots(fb: &FBase, kind: &str) -> (Vec<u32>, Vec<u32>) {
         if r1[i] == r2[i] && p > 2 {
             r2[i] = (r1[i] + 1) % p;
         }
+        // Synthetic tables must stay realistic: a real polynomial value has at most ~150 bits,
+        // so the log weight piled on one position has to stay well below the byte the sieve
+        // accumulates into. With large bases only some size classes take part.
+        let top_log = 32 - fb.p(fb.len() - 1).leading_zeros();
+        let heavy_ok = log <= 12 || log == 16 || log == 17 || log == top_log;
         if class_pos < 8 {
             match kind {
                 "zero" => {
-                    if class_pos == 0 {
+                    if class_pos == 0 && heavy_ok {
                         r1[i] = 0;
                         r2[i] = if p < 16384 { 0 } else { 1 };
                     }
@@ -101,8 +106,8 @@ fn synth_roots(fb: &FBase, kind: &str) -> (Vec<u32>, Vec<u32>) {
                 }
                 "bucket-edges" => {
                     // staggered by class so that a position is shared by few primes
-                    if log < 13 {
-                        continue; // cursor-sieved small primes keep hashed roots
+                    if log < 13 || !(log == 13 || log == 16 || log == 17 || log == top_log) {
+                        continue; // cursor-sieved small primes and most classes keep hashed roots
                     }
                     let e = [255u32, 256, 16383, 16384, 32767, 0, 65535, 65536];
                     let k = (class_pos + log as usize) % 8;
@@ -263,7 +268,9 @@ fn run_config(c: &Config) -> Tally {
                 let y = nsqrt + I256::from(step * r as i64);
                 let v = y * y - I256::cast_from(c.n);
                 t.evals += 1;
-                if let Some(((p, q), factors)) = fbase::cofactor(&fb, &v, &facss[k], u32::MAX as u64, false) {
+                // single large primes below bound^2 (a larger cofactor need not be prime)
+                let maxlarge = ((fb.bound() as u64) * (fb.bound() as u64) - 1).min(u32::MAX as u64);
+                if let Some(((p, q), factors)) = fbase::cofactor(&fb, &v, &facss[k], maxlarge, false) {
                     let cof = p * q;
                     // cofactor must have no base prime divisor
                     for i in 0..fb.len() {
